@@ -1230,6 +1230,9 @@ class Interp:
                             return self.call_function(self.repo.mods[mm].funcs[q], args, kw, selfobj=so)
                 return Const(None)
             fv = self.ev(e.func, env)
+        elif isinstance(e.func, (ast.Call, ast.Subscript, ast.IfExp)):
+            # callee computed by an expression: getattr(mod, name)(...), table[key](...)
+            fv = self.ev(e.func, env)
         if isinstance(fv, Fn):
             return self.apply(fv, args, kw, e)
         # 2. numpy / builtins / scipy
